@@ -484,6 +484,34 @@ func checkUnionMap(l *listFn) []sideIssue {
 			out = append(out, l.issue(r, "return-value", "returns %s", l.rs.src(r)))
 		}
 	}
+	// the first set may be nil (the empty set): inserting into a nil map panics, so before the insert loop it must have been
+	// replaced by a fresh map when it is nil (`if this == nil { this = make(…) }` as a statement before the loop)
+	if l.loop != nil && len(ins) > 0 {
+		made := false
+		for _, st := range l.fn.Body.List {
+			if st.Pos() >= l.loop.Pos() {
+				break
+			}
+			ifs, ok := st.(*ast.IfStmt)
+			if !ok {
+				continue
+			}
+			be, ok := unparen(ifs.Cond).(*ast.BinaryExpr)
+			if !ok || be.Op != token.EQL || !isNilLit(be.Y) || canon(be.X) != this {
+				continue
+			}
+			for _, b := range ifs.Body.List {
+				if as, ok := b.(*ast.AssignStmt); ok && len(as.Lhs) == 1 && len(as.Rhs) == 1 && canon(as.Lhs[0]) == this {
+					if c, ok := as.Rhs[0].(*ast.CallExpr); ok && canon(c.Fun) == "make" {
+						made = true
+					}
+				}
+			}
+		}
+		if !made {
+			out = append(out, l.issue(ins[0], "nil-map-insert", "inserts into the first set without making it when it is nil: the union of the empty set nil with a non-empty set panics (assignment to entry in nil map) instead of returning the second set's keys"))
+		}
+	}
 	return out
 }
 
